@@ -29,6 +29,7 @@ class Engine(object):
         self.trusted = []
         self.class_hooks = {}
         self.homs = {}
+        self.lemma_defs = {}
         self.ghosts = {}
         self.hom_templates = {}
         self._classinfo = None
@@ -51,6 +52,7 @@ class Engine(object):
         self.default_list.update(getattr(mod, "DEFAULT_LIST", {}))
         self.trusted.extend(getattr(mod, "TRUSTED", []))
         self.homs.update(getattr(mod, "HOMS", {}))
+        self.lemma_defs.update(getattr(mod, "LEMMAS", {}))
         self.ghosts.update(getattr(mod, "GHOSTS", {}))
         if hasattr(mod, "install"):
             mod.install(self)
@@ -185,6 +187,25 @@ class Engine(object):
         self.spec_funcs["J"] = sf_J
         self.spec_funcs["isspace"] = pred("isspace")
         self.spec_funcs["isdigit"] = pred("isdigit")
+
+    def verify_lemma(self, name):
+        """a lemma is `forall vars: requires => ensures` over the spec vocabulary; proved like a postcondition"""
+        from .symex import State
+
+        d = self.lemma_defs[name]
+        run = Run.__new__(Run)
+        Run._init_bare(run, self, "lemma." + name)
+        st = State()
+        for g, gt in self.ghosts.items():
+            st.ghost[g] = run.fresh_value(st, parse_type(gt), "ghost_" + g)
+        for v, t in d["vars"].items():
+            st.env[v] = run.fresh_value(st, parse_type(t), v)
+        for r in d.get("requires", []):
+            st.assume(run.spec_bool(r, st))
+        run.obls.append(Obl("lemma." + name + "#reach@pre", st.ctx(), FALSE, "reach", "lemma." + name))
+        for k, e in enumerate(d["ensures"]):
+            run.prove(st, run.spec_bool(e, st), "lemma", None, str(k + 1))
+        return run.obls
 
     # --------------------------------------------------------------- verify
     def verify_function(self, qual):
